@@ -1,7 +1,5 @@
 CONSTANT SGuardAfter = FALSE
-CONSTANT FullLen = 3
-CONSTANT OneLen = 4
-CONSTANT OneKinds = {1,2,3,4,5,6,7,8,9,10,11,12,13,14,15}
+CONSTANT Tier = "quick"
 INIT Init
 NEXT Next
 INVARIANT Judge
